@@ -20,7 +20,7 @@ Definition verdict_encode (x : list (list N) * list N) : N :=
   verdict (negb corr) (negb mon) false (negb (forallb (fun m => forallb (fun b => negb (b =? NL)) m) ms)) (N.min 3 (N.of_nat (length ms))).
 
 (* driver case: number of hook requests (ids 0..n-1 in arrival order), completion order, observed (id, echoed tag) of the replies in write order,
-   number of unparseable frames, trailing bytes *)
+   number of unparseable frames, trailing bytes, the log lines the handlers emitted (by request index) and the log notifications read back *)
 Definition run_driver (n : nat) (order : list N) : list N :=
   let reqs := map N.of_nat (seq 0 n) in
   let '(pending, _) := fold_left (fun acc id => let '(p, out) := acc in let '(p', o) := dstep p (DRequest id) in (p', out ++ o)) reqs ([], []) in
@@ -29,8 +29,8 @@ Definition run_driver (n : nat) (order : list N) : list N :=
 
 Definition count_occ_N (x : N) (l : list N) : nat := length (filter (N.eqb x) l).
 
-Definition verdict_driver (x : nat * list N * list (N * N) * N * N) : N :=
-  let '(n, order, replies, bad, trailing) := x in
+Definition verdict_driver (x : nat * list N * list (N * N) * N * N * list N * list N) : N :=
+  let '(n, order, replies, bad, trailing, logs_emitted, logs_seen) := x in
   let model := run_driver n order in
   let ids := map fst replies in
   (* the order of replies among handlers released one by one follows the completion order; the rest may come in any order *)
@@ -39,5 +39,6 @@ Definition verdict_driver (x : nat * list N * list (N * N) * N * N) : N :=
   let mon := forallb (fun id => Nat.eqb (count_occ_N id ids) 1) (map N.of_nat (seq 0 n))      (* exactly one reply per request id *)
              && Nat.eqb (length ids) n
              && forallb (fun r => fst r =? snd r) replies                                          (* carrying that request's result *)
+             && forallb (fun l => Nat.eqb (count_occ_N l logs_seen) (count_occ_N l logs_emitted)) (logs_emitted ++ logs_seen)   (* each log line written once, whole *)
              && (bad =? 0) && (trailing =? 0) in                                                   (* every frame a complete JSON document *)
   verdict (negb corr) (negb mon) false false (N.min 3 (N.of_nat n)).
